@@ -392,8 +392,44 @@ type zzSrcUnexported struct {
 	flags []uint8
 }
 
+type zzSrcMarks struct {
+	marks []int32 // unexported, same element type as the destination member
+	Name  string
+	Items []zzSrcMarkItem
+}
+type zzSrcMarkItem struct{ samples []float32 }
+type zzDstMarks struct {
+	Marks []int32
+	Name  string
+	Items []zzDstMarkItem
+}
+type zzDstMarkItem struct{ Samples []float32 }
+
 func C20Sequences() {
-	switch sym.Choose("sequence", 5) {
+	switch sym.Choose("sequence", 6) {
+	case 5:
+		// unexported list members whose element type is IDENTICAL on both sides (nothing to convert:
+		// whatever shortcut is taken must still be allowed to read an unexported source), also nested
+		s0 := sym.F32("s0")
+		sym.Assume(zzNotNaN32(s0)) // (a NaN keeps being a NaN, its payload is the hardware's business)
+		src := zzSrcMarks{marks: []int32{sym.I32("m0"), sym.I32("m1")}, Name: sym.Str("name", 1),
+			Items: []zzSrcMarkItem{{samples: []float32{math.Float32frombits(s0)}}}}
+		var dst zzDstMarks
+		sym.Assert(ConvertFrom(&dst, src) == nil, "unexported-same-type/ok")
+		sym.Assert(len(dst.Marks) == 2 && len(dst.Items) == 1, "unexported-same-type/shape")
+		if len(dst.Marks) == 2 && len(dst.Items) == 1 {
+			sym.Assert(sym.And(dst.Marks[0] == src.marks[0], dst.Marks[1] == src.marks[1]), "unexported-same-type/marks")
+			sym.Assert(len(dst.Items[0].Samples) == 1, "unexported-same-type/nested-shape")
+			if len(dst.Items[0].Samples) == 1 {
+				sym.Assert(math.Float32bits(dst.Items[0].Samples[0]) == math.Float32bits(src.Items[0].samples[0]), "unexported-same-type/nested-samples")
+			}
+		}
+		sym.Assert(sym.EqStr(dst.Name, src.Name), "unexported-same-type/name")
+		// the source is left untouched and not aliased
+		if len(dst.Marks) == 2 {
+			dst.Marks[0]++
+			sym.Assert(src.marks[0] == dst.Marks[0]-1, "unexported-same-type/source-aliased")
+		}
 	case 4:
 		// unexported source members (the existing suite does this with a bool): integers and lists too
 		src := zzSrcUnexported{count: sym.I16("count"), Name: sym.Str("name", 1), flags: []uint8{sym.U8("f0")}}
